@@ -643,6 +643,12 @@ class Enumerator:
             for n in carried:
                 v = q.env.get(n)
                 if v is None:
+                    # a stateful carried local: its current value is the last assignment recorded on the path
+                    for e in reversed(q.effects[base_effects:]):
+                        if e.kind == "assign" and e.recv == n:
+                            v = e.value
+                            break
+                if v is None:
                     vals.append((n, "?"))
                 elif isinstance(v, ast.Constant):
                     vals.append((n, repr(v.value)))
@@ -654,8 +660,12 @@ class Enumerator:
                 for e in q.effects[base_effects:]
                 if e.kind in ("aug", "store", "del", "assign") or (e.kind == "call" and e.name in MUTATORS)
             )
-            return (tuple(vals), effs)
+            # history summary: which (version-free) tests have been seen with which outcome since the loop was entered.  Two paths with the
+            # same carried values but different histories are NOT merged: rules may state obligations over the history ("some previous ... was ...")
+            hist = frozenset((strip_v(k), v) for k, v in q.facts.items() if k not in base_facts)
+            return (tuple(vals), effs, hist)
 
+        base_facts = set(p.facts)
         base_effects = len(p.effects)
         for it in range(self.o.unroll + 1):
             # leaving the loop after `it` iterations
